@@ -354,15 +354,22 @@ type Datagram struct {
 
 // PacketConn is a simulated datagram socket (server side): implements net.PacketConn.
 type PacketConn struct {
-	mu       sync.Mutex
-	cond     *sync.Cond
-	in       []Datagram
-	out      map[string][]Datagram
-	outCond  *sync.Cond
-	closed   bool
-	deadline time.Time
-	timer    *time.Timer
-	closes   int
+	mu         sync.Mutex
+	cond       *sync.Cond
+	in         []Datagram
+	out        map[string][]Datagram
+	outCond    *sync.Cond
+	closed     bool
+	deadline   time.Time
+	timer      *time.Timer
+	closes     int
+	closesDone int
+	// HoldNextDelivery: the next datagram read is handed to the caller only after the read deadline
+	// has been moved into the past or the socket was closed.
+	HoldNextDelivery bool
+	holding          bool
+	// CloseDelay makes Close take that long before the socket counts as released.
+	CloseDelay time.Duration
 	// OnSetReadDeadline: see Stream.OnSetReadDeadline.
 	OnSetReadDeadline func(t time.Time)
 }
@@ -435,11 +442,28 @@ func (p *PacketConn) ReadFrom(b []byte) (int, net.Addr, error) {
 			d := p.in[0]
 			p.in = p.in[1:]
 			n := copy(b, d.Data)
+			if p.HoldNextDelivery {
+				// the read has completed inside the "kernel"; it returns to the caller only once
+				// somebody has moved the deadline into the past (or closed the socket): a read that
+				// finishes at the very moment a shutdown begins
+				p.HoldNextDelivery = false
+				p.holding = true
+				for !p.closed && (p.deadline.IsZero() || time.Now().Before(p.deadline)) {
+					p.cond.Wait()
+				}
+				p.holding = false
+			}
 			return n, d.Addr, nil
 		}
 		p.cond.Wait()
 	}
 }
+
+// Holding reports whether a completed read is being held back (see HoldNextDelivery).
+func (p *PacketConn) Holding() bool { p.mu.Lock(); defer p.mu.Unlock(); return p.holding }
+
+// SetHoldNextDelivery arms HoldNextDelivery.
+func (p *PacketConn) SetHoldNextDelivery() { p.mu.Lock(); p.HoldNextDelivery = true; p.mu.Unlock() }
 
 func (p *PacketConn) WriteTo(b []byte, addr net.Addr) (int, error) {
 	p.mu.Lock()
@@ -454,13 +478,23 @@ func (p *PacketConn) WriteTo(b []byte, addr net.Addr) (int, error) {
 
 func (p *PacketConn) Close() error {
 	p.mu.Lock()
-	p.closed = true
 	p.closes++
+	d := p.CloseDelay
+	p.mu.Unlock()
+	if d > 0 {
+		time.Sleep(d) // a socket whose release takes a moment (SO_LINGER-like); Close is synchronous
+	}
+	p.mu.Lock()
+	p.closed = true
+	p.closesDone++
 	p.mu.Unlock()
 	p.cond.Broadcast()
 	p.outCond.Broadcast()
 	return nil
 }
+
+// ClosesDone returns how many Close calls have returned.
+func (p *PacketConn) ClosesDone() int { p.mu.Lock(); defer p.mu.Unlock(); return p.closesDone }
 
 // Closes returns how often Close was called.
 func (p *PacketConn) Closes() int { p.mu.Lock(); defer p.mu.Unlock(); return p.closes }
